@@ -4,13 +4,16 @@ CONSTANTS
   Methods = {"GET", "HEAD"}
   Conns = {"none", "keepalive", "close"}
   Statuses = {200, 201, 204, 304, 404, 500}
-  Bodies = {"none", "empty", "str", "bytes", "list", "big", "gen", "genWithEmpty", "genEmptyMid", "genAllEmpty", "file", "stream", "yield", "error"}
+  Bodies = {"none", "empty", "str", "bytes", "list", "big", "gen", "genWithEmpty", "genEmptyMid", "genAllEmpty", "genBig", "file", "trickle", "stream", "yield", "error"}
   Flags = {TRUE, FALSE}
+  Spells = {"canon", "title", "upper", "list"}
+  Wins = {0, 1, 4000}
   SeqConns = {"keepalive", "close"}
   SeqStatuses = {200}
   SeqBodies = {"str", "stream"}
+  SeqSpells = {"canon", "title"}
   MaxReq = 3
-  DefectChoices = {{}, {"head_noclose", "bodiless_body", "push_cl", "empty_chunk", "chunk_noterm", "stream_sized"}}
+  DefectChoices = {{}, {"listwish"}}
 INVARIANT TypeOK
 INVARIANT IConforms
 INVARIANT IFramed
